@@ -60,7 +60,9 @@ __attribute__((weak)) void vf_alloc_fini(void)
 	vf_alloc_emit("count", NULL, NULL, NULL, vf_alloc_count);
 }
 
-static int vf_alloc_fail(const char *kind, const char *file, const char *func)
+extern char __executable_start __attribute__((weak));
+
+static int vf_alloc_fail(const char *kind, const char *file, const char *func, void *ra)
 {
 	long n;
 	while (__sync_lock_test_and_set(&vf_alloc_lock, 1))
@@ -84,31 +86,34 @@ static int vf_alloc_fail(const char *kind, const char *file, const char *func)
 	__sync_lock_release(&vf_alloc_lock);
 	if (vf_alloc_k > 0 && n == vf_alloc_k) {
 		vf_alloc_emit("site", file, func, kind, n);
+		/* return address of the enclosing function, as an offset into the executable (for addr2line) */
+		vf_alloc_emit("caller", NULL, NULL, NULL,
+			      (long)((char *)ra - &__executable_start));
 		errno = ENOMEM;
 		return 1;
 	}
 	return 0;
 }
 
-static inline void *vf_malloc(size_t n, const char *file, const char *func)
+static inline __attribute__((always_inline)) void *vf_malloc(size_t n, const char *file, const char *func)
 {
-	return vf_alloc_fail("malloc", file, func) ? NULL : malloc(n);
+	return vf_alloc_fail("malloc", file, func, __builtin_return_address(0)) ? NULL : malloc(n);
 }
-static inline void *vf_calloc(size_t a, size_t b, const char *file, const char *func)
+static inline __attribute__((always_inline)) void *vf_calloc(size_t a, size_t b, const char *file, const char *func)
 {
-	return vf_alloc_fail("calloc", file, func) ? NULL : calloc(a, b);
+	return vf_alloc_fail("calloc", file, func, __builtin_return_address(0)) ? NULL : calloc(a, b);
 }
-static inline void *vf_realloc(void *p, size_t n, const char *file, const char *func)
+static inline __attribute__((always_inline)) void *vf_realloc(void *p, size_t n, const char *file, const char *func)
 {
-	return vf_alloc_fail("realloc", file, func) ? NULL : realloc(p, n);
+	return vf_alloc_fail("realloc", file, func, __builtin_return_address(0)) ? NULL : realloc(p, n);
 }
-static inline char *vf_strdup(const char *s, const char *file, const char *func)
+static inline __attribute__((always_inline)) char *vf_strdup(const char *s, const char *file, const char *func)
 {
-	return vf_alloc_fail("strdup", file, func) ? NULL : strdup(s);
+	return vf_alloc_fail("strdup", file, func, __builtin_return_address(0)) ? NULL : strdup(s);
 }
-static inline char *vf_strndup(const char *s, size_t n, const char *file, const char *func)
+static inline __attribute__((always_inline)) char *vf_strndup(const char *s, size_t n, const char *file, const char *func)
 {
-	return vf_alloc_fail("strndup", file, func) ? NULL : strndup(s, n);
+	return vf_alloc_fail("strndup", file, func, __builtin_return_address(0)) ? NULL : strndup(s, n);
 }
 
 #undef malloc
